@@ -35,10 +35,21 @@ if rc != 0:
     print("patch does not apply:", o); sys.exit(1)
 rc, o = sh("go build ./...", cwd=wt)
 res["builds"] = rc == 0
-rc, o = sh("python3 %s/lib/baseline_check.py %s" % (V, wt))
-res["baseline_passes"] = rc == 0
-res["baseline_summary"] = o.strip().splitlines()[:6]
-print("baseline:", o.strip().splitlines()[0] if o.strip() else "?")
+prev_ver = {}
+try:
+    prev_ver = json.load(open(os.path.join(V, "seeded", name, "meta.json"))).get("verification", {})
+except Exception:
+    pass
+if "--no-baseline" in sys.argv and "baseline_passes" in prev_ver:
+    # re-verification after a check was strengthened: the patch is unchanged, keep the recorded suite result
+    res["baseline_passes"] = prev_ver["baseline_passes"]
+    res["baseline_summary"] = prev_ver.get("baseline_summary", [])
+    print("baseline: (kept from earlier run)", res["baseline_passes"])
+else:
+    rc, o = sh("python3 %s/lib/baseline_check.py %s" % (V, wt))
+    res["baseline_passes"] = rc == 0
+    res["baseline_summary"] = o.strip().splitlines()[:6]
+    print("baseline:", o.strip().splitlines()[0] if o.strip() else "?")
 res["checks"] = {}
 for c in checks:
     t = time.time()
@@ -49,8 +60,10 @@ for c in checks:
     print(c, "exit", rc, *lines[:4], sep="\n   ")
 dst = os.path.join(V, "seeded", name)
 os.makedirs(dst, exist_ok=True)
-shutil.copy(os.path.join(out, "patch.diff"), os.path.join(dst, "patch.diff"))
-if os.path.isdir(os.path.join(out, "demo")):
+same = os.path.realpath(out) == os.path.realpath(dst)
+if not same:
+    shutil.copy(os.path.join(out, "patch.diff"), os.path.join(dst, "patch.diff"))
+if not same and os.path.isdir(os.path.join(out, "demo")):
     shutil.rmtree(os.path.join(dst, "demo"), ignore_errors=True)
     shutil.copytree(os.path.join(out, "demo"), os.path.join(dst, "demo"))
 meta = {}
